@@ -101,10 +101,15 @@ func TestSequential(t *testing.T) {
 		n := rapid.IntRange(1, 50).Draw(t, "n")
 		next := 0
 		phase := map[string]int{} // per resource: 0 nothing, 1 saw block, 2 saw exit after block, 3 saw pass after that
-		outOfOrder, bigBatch := false, false
+		outOfOrder, bigBatch, longFlight := false, false, false
 		for i := 0; i < n; i++ {
-			op := rapid.IntRange(0, 4).Draw(t, "op")
+			op := rapid.IntRange(0, 5).Draw(t, "op")
 			switch {
+			case op == 5: // time passes (entries may stay in flight for hours): the bound is about in-flight entries only
+				dt := uint64(rapid.SampledFrom([]int{1, 999, 10000, 59999, 60000, 60001, 600000, 86400000}).Draw(t, "dt"))
+				hx.C.AddMs(dt)
+				c.Op("advance %d ms", dt)
+				longFlight = longFlight || (dt > 60000 && len(lives) > 0)
 			case op <= 2:
 				res := rapid.SampledFrom([]string{"a", "b"}).Draw(t, "res")
 				b := batches[rapid.IntRange(0, len(batches)-1).Draw(t, "batch")]
@@ -178,6 +183,7 @@ func TestSequential(t *testing.T) {
 		c.ClassIf(reuse, "block-exit-pass")
 		c.ClassIf(outOfOrder, "out-of-order-exit")
 		c.ClassIf(bigBatch, "batch>=2^31")
+		c.ClassIf(longFlight, "entry-in-flight-longer-than-60s")
 		if reuse || outOfOrder || bigBatch {
 			c.NonTrivial()
 		}
